@@ -190,9 +190,9 @@ def match_all_storms(
         )
     )
     check_for_uniform_time_steps(epoch)
-    (time_step_h,) = cursor.execute(
+    (time_step_s, time_step_h) = cursor.execute(
         """
-    SELECT CAST(time_step_s AS double precision) / 3600.
+    SELECT time_step_s, CAST(time_step_s AS double precision) / 3600.
     FROM time_grid"""
     ).fetchone()
     jump_delta_threshold = rising_jump_threshold_mm_h * time_step_h
@@ -218,7 +218,9 @@ def match_all_storms(
         # storm thru_epoch is not included; but the slice that goes
         # thru the thru_epoch is.
         storm_start_epoch = int(epoch[rain_start])
-        storm_thru_epoch = int(epoch[rain_stop])
+        # (The storm may run to the last sample of the data interval,
+        # so compute the closing epoch instead of looking it up.)
+        storm_thru_epoch = int(epoch[rain_stop - 1]) + time_step_s
         # On the other hand, heads are instantaneous values, so the
         # epoch of the end of the jump interval is the one to use.
         jump_start_epoch = int(epoch[jump_start])
@@ -368,7 +370,9 @@ def get_candidate_match_intervals(
     assert (
         rain_start == 0 or not is_raining[rain_start - 1]
     ), "No heavy rain just before slice"
-    assert not is_raining[rain_stop], "No heavy rain at end of slice"
+    assert (
+        rain_stop == len(is_raining) or not is_raining[rain_stop]
+    ), "No heavy rain at end of slice"
     jump_indices = np.nonzero(jump_mask)[0]
     jump_start = jump_indices[0]
     jump_stop = jump_indices[-1] + 2
